@@ -1,4 +1,4 @@
-import sys; sys.path[:0]=['/repo','/verif/.deps','/verif/design_probes']
+import sys, os; sys.path[:0]=[os.environ.get('VERIF_REPO','/repo'),'/verif/.deps','/verif/design_probes']
 import torch, numpy as np, itertools, warnings, math
 from qucumber.nn_states import PositiveWaveFunction, ComplexWaveFunction, DensityMatrix
 from qucumber.observables import *
@@ -57,5 +57,3 @@ def C(*s): return rng.integers(-3,4,size=s)+1j*rng.integers(-3,4,size=s)
 def enc(z): return torch.tensor(np.stack([z.real,z.imag]),dtype=torch.double)
 a,b=C(3,4),C(3,4,5); print("einsum ib,ibg->bg", np.allclose(cplx.numpy(cplx.einsum("ib,ibg->bg",enc(a),enc(b))), np.einsum("ib,ibg->bg",a,b)))
 a,b=C(2,2,3),C(2,2,3,5); print("einsum ijb,ijbg->bg re", np.allclose(cplx.einsum("ijb,ijbg->bg",enc(a),enc(b),imag_part=False).numpy(), np.einsum("ijb,ijbg->bg",a,b).real))
-m,x=C(2,2),C(2,3,4); print("matmul batch", np.allclose(cplx.numpy(cplx.matmul(enc(m),enc(x))), np.einsum("ij,jkl->ikl",m,x)) if True else 0)
-s,x=C(),C(2,3,4); print("scalar*rank3", np.allclose(cplx.numpy(cplx.scalar_mult(enc(np.array(s)),enc(x))), s*x))
